@@ -282,6 +282,7 @@ fn parse_script(path: &str) -> Vec<(usize, u64, u8, u8, (usize, usize), Vec<(boo
                     "D" => Some(Op::Dealloc { w: n(3) as u8, b: n(4) }),
                     "G" => Some(Op::Grow { w: n(3) as u8, b: n(4), size: n(5), align: n(6), zeroed: n(7) == 1 }),
                     "S" => Some(Op::Shrink { w: n(3) as u8, b: n(4), size: n(5), align: n(6) }),
+                    "SP" => Some(Op::Split { b: n(3), mid: n(4) }),
                     "CP" => Some(Op::Checkpoint),
                     "RT" => Some(Op::ResetTo { cp: n(3) }),
                     "SC" => Some(Op::ScopeEnter),
